@@ -123,6 +123,8 @@ var propDrivers = map[string]*propDriver{
 		notes: []string{"C04's interval semantics is a bounded stand-in (exhaustive enumeration of comparator shapes on the real vers.Contains), never counted as proved; the per-function contracts of the VERS chain that are proved are listed under discharged"}},
 	"C05": {extra: func(w *World, tier string) []VC { return w.shorthandVCs() },
 		notes: []string{"C05 = proved contracts on the direct matching predicates / desugaring functions that the engine reaches (cargo caret and tilde, hex pessimistic, ...) + bounded API obligations per (ecosystem, construct) that run the real NewVersionRange+Contains against the documented interval on a grid of bases and boundary probes; the bounded obligations are stand-ins and never counted as proved"}},
+	"C03": {extra: func(w *World, tier string) []VC { return w.numOrderVCs() },
+		notes: []string{"the struct-level rules are proved for all values; text-to-fields parsing and the ecosystems whose comparison loops are outside govc's summaries are covered by the per-ecosystem bounded API obligations <eco>.(*Version).Compare.c03[...] (stand-ins, never counted as proved)"}},
 	"C07": {extra: func(w *World, tier string) []VC { return w.sortVCs() },
 		notes: []string{"the contract of slices.SortFunc (the result is a permutation of the input, sorted under a comparison that is a total preorder) is an assumed library contract; the total-preorder premise is C01"}},
 	"C16": {extra: func(w *World, tier string) []VC { return w.versInvVCs(tier) },
